@@ -518,8 +518,8 @@ def gen_ops_for(rng: Rng, svcs: List[str], apps: List[str], folders: List[str], 
             return ["shutdown"]
         if r < 8:
             return ["startup"]
-        # `reset` with shut_down_duration 0 leaves is_resetting stuck (F-20, property C12's business): not generated here
-        return ["nodereset"] if shut > 0 else ["shutdown"]
+        # `reset` with shut_down_duration 0: the node goes OFF and is powered on again in the same call (after C12's fix of F-20)
+        return ["nodereset"]
 
     weights = {0: (30, 22, 22, 8, 8, 10), 1: (30, 40, 4, 6, 10, 10), 2: (30, 4, 45, 6, 7, 8), 3: (35, 15, 12, 25, 8, 5)}[mode]
     tot = sum(weights)
